@@ -103,6 +103,9 @@ def op_obligations(prop="C03"):
     return obs
 
 
+ARITH_BACKENDS = {"ADD": ["minisat"], "SUB": ["minisat"], "MUL": ["minisat", "z3"], "DIV": ["z3"]}
+
+
 def float_obligations(prop="C03"):
     """FLOAT x FLOAT operators and the mixed INT/FLOAT comparisons the type checker admits (with a diagnostic); mixed
     ARITHMETIC is rejected by the type checker ("Arithmetic expects numeric types ...": Type checking failed) and has no obligation."""
@@ -112,7 +115,22 @@ def float_obligations(prop="C03"):
         d = {"VERIF_EOP": EOP[op], "VERIF_MIX": 0}
         if op == "DIV":
             d["VERIF_DOM"] = DOM["DEFINED"]          # every divisor except +-0.0
-        obs.append(base(prop, "%s.float.%s" % (prop, op), "h_fop", d, functions=fns(op), must_have=[r"C03\.float %s" % op, r"COVER"]))
+        o = base(prop, "%s.float.%s" % (prop, op), "h_fop", d, functions=fns(op), must_have=[r"C03\.float %s" % op, r"COVER"])
+        if op in ARITH_BACKENDS:
+            # two separately encoded IEEE adders / multipliers / dividers over the same operands (the interpreter's and the spec's):
+            # measured ADD 216 s, SUB 167 s (minisat), DIV 194 s (z3), MUL > 300 s on both -> full domain = thorough tier;
+            # quick tier = the same statement on operands with 8 significant mantissa bits (all exponents, signs, special values)
+            o["backends"] = ARITH_BACKENDS[op]
+            o["tier"] = "thorough"
+            o["timeout"] = 1800
+            b = base(prop, "%s.float.%s.m8" % (prop, op), "h_fop", dict(d, VERIF_FMASK=8), functions=fns(op), must_have=[r"C03\.float %s" % op, r"COVER"],
+                     strength="B(both operands: any sign, any 11-bit exponent incl. zero/subnormal/inf/NaN, top 8 mantissa bits arbitrary, low 44 mantissa bits zero)")
+            if op in ("MUL", "DIV"):
+                b["id"] = "%s.float.%s.m8e16" % (prop, op)
+                b["defines"]["VERIF_FEXP"] = 16
+                b["strength"] = "B(both operands finite normal, unbiased exponent in [-16,16], top 8 mantissa bits arbitrary, low 44 zero)"
+            obs.append(b)
+        obs.append(o)
         if op == "DIV":
             # divisor +-0.0: C (and the compiled program) yields +-inf / NaN and goes on; no fault
             obs.append(base(prop, "%s.float.DIV.zero" % prop, "h_fop", dict(d, VERIF_DOM=DOM["ZERO"]), functions=fns(op),
